@@ -305,7 +305,7 @@ class World:
             B, B_in = self._typed(B, case.get('scale_model', 1.0))
             self.B.append(B)
             obj = RDMs(B_in, pattern_descriptors={k: self._cont(v) for k, v in pdesc.items()})
-            name = f'm{j}{kind}'
+            name = 'model' if case.get('same_names') else f'm{j}{kind}'     # same_names: the entries of the model list share one name
             if kind == 'fixed':
                 mdl, th = M.ModelFixed(name, obj), None
             elif kind == 'weighted':
@@ -1266,6 +1266,8 @@ def _case(shape, models, method, seed, **kw):
     c = dict(SHAPES[shape])
     c.update(models=list(MODELSETS[models]), method=method, seed=seed, np_seed=1000 + 17 * seed + len(kw))
     c.update(kw)
+    if c.get('model_kinds'):        # sweep: an explicit list of model kinds instead of a named set
+        c['models'] = list(c.pop('model_kinds'))
     return c
 
 
@@ -1335,7 +1337,9 @@ SWEEP_KW = (('dtype=int64', dict(dtype='int64')), ('dtype=int32', dict(dtype='in
             ('units=1e-26', dict(scale_data=1e-26)), ('units=1e+12/1e-20', dict(scale_data=1e12, scale_model=1e-20)),
             ('units=1e-12/1e+6', dict(scale_data=1e-12, scale_model=1e6)), ('units=1e+6/1e+12', dict(scale_data=1e6, scale_model=1e12)),
             ('descriptors-as-tuple', dict(container='tuple')), ('descriptors-as-ndarray', dict(container='ndarray')),
-            ('descriptors-as-small-ndarray', dict(container='ndarray-small')), ('call-sequence', dict(seq=True)))
+            ('descriptors-as-small-ndarray', dict(container='ndarray-small')), ('call-sequence', dict(seq=True)),
+            ('models-share-a-name,weighted', dict(same_names=True, model_kinds=['weighted', 'weighted'])),
+            ('models-share-a-name,fixed', dict(same_names=True, model_kinds=['fixed', 'fixed', 'fixed'])))
 THETA_KW = (('theta=int64', dict(theta_dtype='int')), ('theta=float32', dict(theta_dtype='float32')), ('bare-model', dict(bare_model=True)))
 SWEEP_NOTE = ('; sweeps (own input classes): dissimilarities as int64/int32/int16/uint8/float32, units 1e-26..1e+12, descriptors as '
               'tuple/ndarray, call sequence with other content in between, interleaved / unbalanced / single groups, 3-fold remainders')
